@@ -126,7 +126,7 @@ def choicesOf (sc : StreamChoices) : Choices :=
     connScheme := sc.conn }
 
 /-- the decidable part of the theorems' domain (`GeomOK` / `AttOK`), evaluated on the case:
-    `dom-ok`, `dom-octa-fails` (the float oracle hypothesis `octaRowOK` is violated — would be a
+    `dom-ok`, `dom-octa-fails` (the hypothesis `octaEntryOK` on the normals is violated — would be a
     finding about the hypothesis), or `dom-out` (outside the domain, e.g. no points) -/
 def domainOf (g : Geometry) (eo : EncOpts) : String :=
   let n := g.numPoints
@@ -145,7 +145,7 @@ def domainOf (g : Geometry) (eo : EncOpts) : String :=
     let o := eo.att ia.1
     if encoderType a o == 3 then
       match Octa.init o.quantBits.toNat with
-      | some t => (pointRows a n).all (octaRowOK t)
+      | some t => (pointRows a n).all fun r => octaEntryOK t (octaRow t r)
       | none => true
     else true
   if octaOk then "dom-ok" else "dom-octa-fails"
@@ -175,10 +175,9 @@ def seqencOp (args : List String) : String :=
             else "rt-differs"
           | _ => "rt-differs"
         -- RoundTripOK (executable specification) of `expected g opts` w.r.t. the declared transforms
-        let req : Spec.QuantReq := (zipIdxFrom 0 g.atts).filterMap fun ia =>
-          if encoderType ia.2 (eo.att ia.1) ≥ 2 then some (ia.2.uniqueId, (eo.att ia.1).quantBits.toNat) else none
+        let req : Spec.QuantReq := quantReq g eo
         let spec :=
-          match decodeGeometry { skip := [0, 1, 2, 3, 4] } { rest := bs } with
+          match decodeGeometry { skip := allTypes } { rest := bs } with
           | (some r, _) =>
             let c := Spec.check .sequential req g exp r.geometry
             if c == "ok" then "spec-ok" else if c.startsWith "skip" then "spec-skip" else "spec-violation"
